@@ -15,7 +15,7 @@ class IRProp(Prop):
     extract = ("ir", "ExtractIR.v", "ir_main.ml", "Ir_model")
     allowed_axioms = set()
     genopts = {}
-    sizes = {"quick": 220, "thorough": 1500, "boost": 900}
+    sizes = {"quick": 600, "thorough": 4000, "boost": 1500}
     tag = "ir"
     base_trusted = [
         "Coq 8.16.1 kernel",
